@@ -20,6 +20,7 @@ const (
 	OpYield OpKind = iota
 	OpLock
 	OpRLock
+	OpWait
 )
 
 // Lockable is the modelled state of a shimmed mutex.
@@ -34,6 +35,7 @@ type thread struct {
 	resume  chan struct{}
 	pending OpKind
 	lock    *Lockable
+	cond    func() bool
 	done    bool
 	points  int
 	started bool
@@ -55,6 +57,10 @@ type Run struct {
 	// Hung is set when a thread blocked outside the scheduler's model (harness limitation)
 	Hung     string
 	panicVal any
+	// Atomics: atomic operations of the shimmed packages are scheduling points too (vatomic)
+	Atomics bool
+	// evaluating: the driver is computing the enabled set (wait conditions may run shimmed atomics)
+	evaluating bool
 }
 
 var active atomic.Pointer[Run]
@@ -92,6 +98,8 @@ func (t *thread) enabled() bool {
 		return !t.lock.Writer && t.lock.Readers == 0
 	case OpRLock:
 		return !t.lock.Writer
+	case OpWait:
+		return t.cond()
 	}
 	return true
 }
@@ -105,6 +113,7 @@ func (r *Run) Execute() {
 	for {
 		// canonical enabled order: the thread that just ran first (if it can continue), then ascending ids
 		var en []*thread
+		r.evaluating = true
 		if r.cur != nil && r.cur.enabled() {
 			en = append(en, r.cur)
 		}
@@ -113,6 +122,7 @@ func (r *Run) Execute() {
 				en = append(en, t)
 			}
 		}
+		r.evaluating = false
 		if len(en) == 0 {
 			for _, t := range r.threads {
 				if !t.done {
@@ -140,7 +150,7 @@ func (r *Run) Execute() {
 		case OpRLock:
 			t.lock.Readers++
 		}
-		t.pending, t.lock = OpYield, nil
+		t.pending, t.lock, t.cond = OpYield, nil, nil
 		r.cur = t
 		r.Trace = append(r.Trace, t.name)
 		t.started = true
@@ -166,7 +176,7 @@ func (r *Run) Waiting() []string {
 		if t.done {
 			continue
 		}
-		k := map[OpKind]string{OpYield: "yield", OpLock: "Lock", OpRLock: "RLock"}[t.pending]
+		k := map[OpKind]string{OpYield: "yield", OpLock: "Lock", OpRLock: "RLock", OpWait: "condition"}[t.pending]
 		st := ""
 		if t.lock != nil {
 			st = fmt.Sprintf(" (writer=%v readers=%d)", t.lock.Writer, t.lock.Readers)
@@ -178,6 +188,12 @@ func (r *Run) Waiting() []string {
 
 // point parks the calling (= currently running) thread with its pending operation.
 func (r *Run) point(k OpKind, l *Lockable) {
+	if r.evaluating {
+		if k == OpYield {
+			return // a wait condition read an atomic: no scheduling point inside the driver
+		}
+		panic("sched: a wait condition tried to take a lock")
+	}
 	t := r.cur
 	t.pending, t.lock = k, l
 	t.points++
@@ -189,6 +205,25 @@ func (r *Run) point(k OpKind, l *Lockable) {
 func Yield() {
 	if r := Active(); r != nil {
 		r.point(OpYield, nil)
+	}
+}
+
+// AtomicPoint is the scheduling point in front of a shimmed atomic operation; only runs that ask for it
+// (Run.Atomics) stop there.
+func AtomicPoint() {
+	if r := Active(); r != nil && r.Atomics {
+		r.point(OpYield, nil)
+	}
+}
+
+// WaitUntil parks the calling thread until cond holds (a modelled blocking wait: a channel receive, a
+// condition variable). cond is evaluated by the driver while every thread is parked, so it may read any state.
+// A thread whose condition never becomes true counts towards a deadlock.
+func WaitUntil(cond func() bool) {
+	if r := Active(); r != nil {
+		t := r.cur
+		t.cond = cond
+		r.point(OpWait, nil)
 	}
 }
 
